@@ -172,6 +172,10 @@ func (s *Service) proposeBlock(ctx context.Context,
 	}
 
 	if signedProposal.Blinded {
+		if auctionResults == nil {
+			// A blinded proposal can only be unblinded by the relays that took part in the auction.
+			return errors.New("blinded proposal without auction results; no relays to unblind the block")
+		}
 		// Select the relays to unblind the proposal.
 		providers := make([]builderclient.UnblindedProposalProvider, 0, len(auctionResults.AllProviders))
 		unblindingCandidates := auctionResults.Providers
